@@ -262,7 +262,7 @@ def _rows(grid):
 def to_canon(x, grid, Mc, Lc) -> np.ndarray:
   """Repository modal layout [..., row, l] -> canonical [..., m, (cos, sin), l] (float64)."""
   x = np.asarray(x, dtype=np.float64)
-  mask = np.asarray(grid.mask)
+  mask = gen.independent_mask(grid)
   out = np.zeros(x.shape[:-2] + (Mc, 2, Lc))
   n = min(Lc, x.shape[-1])
   for i, (m, kind) in enumerate(_rows(grid)):
@@ -276,7 +276,7 @@ def from_canon(c, grid) -> np.ndarray:
   """Canonical [..., m, (cos, sin), l] -> repository modal layout (masked/padded entries zero)."""
   c = np.asarray(c, dtype=np.float64)
   ms = tuple(grid.modal_shape)
-  mask = np.asarray(grid.mask)
+  mask = gen.independent_mask(grid)
   out = np.zeros(c.shape[:-3] + ms)
   Mc, Lc = c.shape[-3], c.shape[-1]
   n = min(Lc, ms[1])
